@@ -84,6 +84,7 @@ func (x *xrun) call(family, entry, note string, input []byte, bound uint64, f fu
 	x.byFam[family]++
 	x.w.Count("exploration_family", family)
 	done := make(chan string, 1)
+	inputCopy := append([]byte(nil), input...)
 	before := x.allocs()
 	go func() {
 		defer func() {
@@ -107,6 +108,9 @@ func (x *xrun) call(family, entry, note string, input []byte, bound uint64, f fu
 	}
 	if alloc > x.famAlloc[family] {
 		x.famAlloc[family] = alloc
+	}
+	if what == "" && !bytes.Equal(inputCopy, input) {
+		what = "library mutated caller-owned input bytes"
 	}
 	if what == "" && alloc > bound {
 		what = fmt.Sprintf("runaway allocation: %d bytes allocated during the call (bound %d)", alloc, bound)
